@@ -5,7 +5,7 @@
    value (summed_size, concatenated bytes) equals the sender's.  The sender's value must carry accurate
    summed_size fields (vsum) — SerializerIOV::process_field(iovec_array&) establishes exactly that. *)
 From Coq Require Import ZArith List Bool Lia.
-From PV Require Import Base.U64 C12.C12_Model C12.C12_Mem C12.C12_MemC C12.C12_Iov C12.C12_Flat C12.C12_Deser C12.C12_Sep C12.C12_Wire C12.C12_RtD C12.C12_RtS C12.C12_Rt C12.C12_Hx C12.C12_View C12.C12_Hb.
+From PV Require Import Base.U64 C12.C12_Model C12.C12_Mem C12.C12_MemC C12.C12_Iov C12.C12_Flat C12.C12_Deser C12.C12_Sep C12.C12_Wire C12.C12_RtD C12.C12_RtS C12.C12_Rt C12.C12_RtC C12.C12_RtC2 C12.C12_Hx C12.C12_View C12.C12_Hb.
 Import ListNotations.
 Local Open Scope Z_scope.
 
@@ -375,3 +375,68 @@ Section RT2.
     split; [split; [eapply validb_ext; [exact Hx2|exact Pv]|lia]|]. split; [exact Hr|]. split; [exact Fl2|exact Hi2].
   Qed.
 End RT2.
+
+Section RTCI.
+  Variable hstep : Z -> byte -> Z.
+  Hypothesis hstep_range : forall h b, 0 <= h < W32 -> 0 <= b < 256 -> 0 <= hstep h b < W32.
+
+  Theorem deserialize_rt_checked_iov sh ms x mr v vals wf Fs body :
+    shape_wf sh -> sh_checked sh = true ->
+    lay_fs (sh_fields sh) -> (forall b, psep (aranges_fs (sh_fields sh) b)) ->
+    Forall (fun L => L <= STRIDE) (lens ms) ->
+    rd_fs (perm (sh_fields sh)) ms x = Ok (vals, wf, Fs) -> vsums vals -> load ms x (sh_size sh) = Ok body ->
+    (* the stored word is the checksum the receiver recomputes *)
+    le_dec (firstn 4 body) =
+      hash_ext hstep (hash_ext hstep 0 wf) (le_enc 4 (hash_ext hstep 0 wf) ++ skipn 4 body) ->
+    inv mr v -> flat mr (i_el v) = Ok (wf ++ body) -> psep (i_el v) ->
+    i_nb v + 1 + len Fs <= i_cap v ->
+    exists t st w2 F, deserialize hstep cfg_final sh mr v = Ok (t, st) /\ t <> 0 /\
+      ptr_ok (lens (d_mem st)) t (sh_size sh) /\
+      rd_fs (perm (sh_fields sh)) (d_mem st) t = Ok (vals, w2, F) /\
+      flat (d_mem st) (i_el (d_iov st)) = Ok [].
+  Proof.
+    intros [Hsz [Hwf Hck0]] Hck Hlay Hps Hmswf Hrd Hvs Lb Hsum Hinv Hfl Hpe Hnb.
+    specialize (Hck0 Hck).
+    pose proof (len_nonneg Fs) as HFs.
+    pose proof (load_len _ _ _ _ Lb) as Hlb. rewrite Z.max_r in Hlb by lia.
+    assert (Hlw : len (wf ++ body) - sh_size sh = len wf) by (rewrite len_app; lia).
+    destruct (ebc_flat mr v (sh_size sh) (wf ++ body) Hinv Hsz Hfl ltac:(rewrite len_app; pose proof (len_nonneg wf); lia) Hpe ltac:(lia))
+      as [t [m1 [v1 [He X]]]].
+    rewrite Hlw in X. rewrite (skipn_app_exact wf body (len wf)), (firstn_app_exact wf body (len wf)) in X by (unfold len; lia).
+    pose proof X as [Hi1 [Hx1 [Hc1 [Hn1 [[Pv [Pp Pw]] [Lp [Fl1 [Ps1 [Pr1 [Sp1 [Fr1 _]]]]]]]]]]].
+    unfold deserialize. rewrite He. cbn [bind]. destruct (t =? 0) eqn:Et; [apply Z.eqb_eq in Et; lia|].
+    rewrite Hck.
+    destruct (validate_flat hstep hstep_range m1 v1 t (sh_size sh) wf body Hi1 Hck0 Pv ltac:(lia)) as [m3 [Hv [Hl3 [Hi3 [Fl3 [Lb3 Fr3]]]]]]; auto.
+    { intros e He'. eapply sep_sub_r; [apply Sp1; exact He'|]. unfold within. cbn [fst snd]. lia. }
+    rewrite Hv. cbn [bind]. rewrite Hsum, Z.eqb_refl. cbn [negb]. rewrite !d_pass_filt.
+    (* the body the receiver holds is again the sender's body *)
+    assert (Hbody : le_enc 4 (hash_ext hstep (hash_ext hstep 0 wf) (le_enc 4 (hash_ext hstep 0 wf) ++ skipn 4 body)) ++ skipn 4 body = body).
+    { rewrite <- Hsum. pose proof (load_bytes_ok _ _ _ _ (inv_bytes _ _ Hi1) Lp) as Hbb.
+      assert (H4 : length (firstn 4 body) = 4%nat) by (rewrite firstn_length; unfold len in Hlb; lia).
+      rewrite <- H4 at 1. rewrite le_enc_dec by (apply bytes_ok_firstn; exact Hbb). apply firstn_skipn. }
+    rewrite Hbody in Lb3.
+    set (st0 := mkD m3 v1 false).
+    assert (Hwfp : fields_wf (sh_size sh) (perm (sh_fields sh))) by (apply fapp_wf; apply filt_wf; exact Hwf).
+    assert (Hlp : lay_fs (perm (sh_fields sh))) by (apply fapp_lay; apply filt_lay; exact Hlay).
+    assert (Hpp : psep (aranges_fs (perm (sh_fields sh)) t)) by (eapply psep_perm; [apply aranges_perm|apply Hps]).
+    destruct (proj2 (rt_all' ms Hmswf) (perm (sh_fields sh)) (sh_size sh) st0 t x [(t, sh_size sh)] (t, sh_size sh) vals wf Fs []
+                Hwfp Hlp Hpp) as [st2 [new [Hd [SP [w2 [F [Hr Hf]]]]]]].
+    { rewrite app_nil_r. cbn [st0 d_mem d_iov]. split; [exact Hi3|]. split; [exact Fl3|]. split; [exact Ps1|].
+      split; [split; [intros y []|exact I]|]. split; [intros e c He' [<-|[]]; apply Sp1; exact He'|].
+      intros c [<-|[]]. rewrite Hl3. exact Pv. }
+    { left. reflexivity. }
+    { apply within_refl. }
+    { exact Hrd. }
+    { exact Hvs. }
+    { apply (proj2 (blk_eq _ _) _ (sh_size sh) t x Hwfp). cbn [st0 d_mem].
+      apply (blk_of_loads _ _ _ _ _ body (inv_wf _ _ Hi3) Hmswf Lb3 Lb). }
+    { cbn [st0 d_iov]. lia. }
+    destruct SP as [Hfl2 [HR2 [Hx2 [Hc2 [Hn2 Hfr2]]]]]. cbn [st0 d_failed] in Hfl2.
+    unfold perm in Hd. rewrite d_fields_app in Hd.
+    destruct (d_fields cfg_final (filt true (sh_fields sh)) st0 t) as [st1|]; cbn [bind] in Hd |- *; [|discriminate Hd].
+    rewrite d_pass_filt, Hd. cbn [bind]. rewrite Hfl2.
+    exists t, st2, w2, F. split; [reflexivity|]. split; [lia|].
+    destruct HR2 as [Hi2 [Fl2 _]].
+    split; [split; [eapply validb_ext; [exact Hx2|]; cbn [st0 d_mem]; rewrite Hl3; exact Pv|lia]|]. split; [exact Hr|exact Fl2].
+  Qed.
+End RTCI.
